@@ -4,7 +4,7 @@ from .facts import AnalysisBroken, REPO, VERIF
 from .ir import (ANY, V, Program, call_to, call_args, call_obj, callee, calls_in, contains, find, is_call_to, is_expr, match, show,
                  stmt_exprs, stmts, subexprs, undefarg, all_exprs)
 from .ladder import Rung, check_ladder, exits, invalid_call, naming, loop_range_key
-from .paths import (ASSIGN_OPS, Flow, MustFlow, all_sites, always_exits, has_break, local_defs, returns, sites, stmt_sites)
+from .paths import (ASSIGN_OPS, Flow, MustFlow, MayFlow, sub_function, all_sites, always_exits, has_break, local_defs, returns, sites, stmt_sites)
 
 
 def is_true_ret(e):
@@ -87,3 +87,33 @@ def local_values(fn, name):
                 if x[0] == "u" and x[1] in ("++", "--", "post++", "post--", "&") and match(["local", name], x[2]):
                     vals.append((st.get("l"), ["compound", x[1]]))
     return vals
+
+
+def check_validation_state(ctx, fn, program, state_pred, commit_preds, oid, accept=is_true_ret):
+    """TYPESTATE: after `<state>.Invalid(...)` (state_pred selects the object expression) the function neither returns
+    success nor reaches a commit effect unless a `<state>.IsValid()` / `!<state>.IsInvalid()` test intervened."""
+    inv = lambda e: e[0] in ("mcall", "vcall") and e[1] == "ValidationState::Invalid" and state_pred(e[2])
+    isvalid = lambda a: is_expr(a) and a[0] in ("mcall", "vcall") and a[1] == "ValidationState::IsValid" and state_pred(a[2])
+    isinvalid = lambda a: is_expr(a) and a[0] in ("mcall", "vcall") and a[1] == "ValidationState::IsInvalid" and state_pred(a[2])
+    mf = MayFlow(fn, program, gens=[("invalid", inv)], branch_kills=[("invalid", isvalid, True), ("invalid", isinvalid, False)])
+    mf.watch = lambda e: any(p(e) for _, p in commit_preds)
+    mf.run()
+    ctx.used(fn)
+    n = 0
+    for e, st, stmt in mf.events:
+        name = [nm for nm, p in commit_preds if p(e)][0]
+        ok = "invalid" not in st
+        n += 1
+        ctx.ob("%s/commit:%s@L%s" % (oid, name, stmt.get("l")), "TYPESTATE", "%s in %s is not reached on a path where the validation state was set Invalid"
+               % (name, fn.q), ok, "%s:%s" % (fn.file, stmt.get("l")))
+    for st, stmt in mf.exits:
+        class _E:  # minimal Exit-like view for accept predicates
+            pass
+        ex = _E()
+        ex.kind, ex.value = stmt.get("k"), stmt.get("v")
+        if ex.kind == "ret" and accept(ex):
+            ok = "invalid" not in st
+            n += 1
+            ctx.ob("%s/accept@L%s" % (oid, stmt.get("l")), "TYPESTATE", "%s does not return success on a path where the validation state was set Invalid" % fn.q,
+                   ok, "%s:%s" % (fn.file, stmt.get("l")))
+    return n
